@@ -349,7 +349,8 @@ fn plonk_cases(thorough: bool) -> Vec<PlonkCase> {
         v.push(PlonkCase { name: "zk-lookup-minsize3", config: c, log_rows: 11, lookups: true, npi: 2 });
         let mut c = std.clone();
         c.num_challenges = 3;
-        c.fri_config = FriConfig { rate_bits: 2, cap_height: 3, proof_of_work_bits: 10, reduction_strategy: FriReductionStrategy::ConstantArityBits(2, 3), num_query_rounds: 30 };
+        // (rate_bits >= log2(quotient degree factor 8), otherwise the prover's FFT panics on its root table)
+        c.fri_config = FriConfig { rate_bits: 3, cap_height: 3, proof_of_work_bits: 10, reduction_strategy: FriReductionStrategy::ConstantArityBits(2, 3), num_query_rounds: 30 };
         v.push(PlonkCase { name: "nc3-cab23", config: c, log_rows: 10, lookups: false, npi: 5 });
         let mut c = std.clone();
         c.num_challenges = 1;
